@@ -9,16 +9,22 @@ TRUSTED = [
     "duplicate repair, histogram, aggregations, soft errors)/paginateIDs, of doSearch/processSearchErrors/"
     "parseProxyError (API answer), of lessFuncPosBased/mergedDocStream/newNMergedStreams/mergedStreamIterator and of "
     "Documents/expandIDsBySources/uniqueIDIterator (tied to /repo by the correspondence run)",
+    "hand-written model props/C16/coq/ModelExt.v of groupIDsBySource/FetchDocsStream (one call per source, the "
+    "all-calls-failed decision; call order = map iteration = parameter), of the proxyapi response assembly (size/offset "
+    "validation, doSearch error mapping, makeProtoDocs, int64 Total, flag/code, histogram) and of SamplesContainer.Merge/"
+    "InsertSample with the reservoir (fastrand.RNG as a parameter)",
     "Go harness harness/cmd/hC16: scripted fake StoreApiClients (search answers with totals/histograms/aggregations/"
     "soft errors, fetch streams), real proxyapi Search/ComplexSearch handlers through the add-only export "
     "VerifC16NewGrpcV1, canonicalisation of source numbers through VerifC16SourceByClient",
     "sort.Sort enters the theorems as an arbitrary function returning a sorted permutation",
 ]
 ASSUME = [
-    "aggregation values are integers (exact in float64); fewer than 8096 samples per bin (reservoir replacement not modelled)",
+    "aggregation values are integers (exact in float64); for bins with >= 8096 samples only Total/Sum/Min/Max/NotExists are "
+    "compared (C16_agg_scalar_exact_unbounded), the sample multiset after reservoir replacement is not",
     "stores answer with at most as many aggregations as requested (more makes MergeQPRs index out of range)",
     "replica errors are not gRPC InvalidArgument statuses (the bad-query path of doSearch is not driven)",
-    "request validation of the handlers (size > 0, query/from/to present), rate limiting, mirroring, explain: not modelled",
+    "query/from/to presence checks, histogram interval parsing, rate limiting, mirroring, the explain tree, the API rendering of "
+    "aggregations and the grpc-gateway HTTP re-encoding: not modelled (size/offset validation is)",
     "context cancellation and timeouts are not modelled",
 ]
 RULE = ("exhaustive: hot tier 2 shards x 2 replicas, all 5^4 behaviour assignments x cold tier {none, ok, error, "
@@ -30,8 +36,16 @@ RULE = ("exhaustive: hot tier 2 shards x 2 replicas, all 5^4 behaviour assignmen
         "truncate(+error)/unrequested/swap/duplicate/reverse, failing fetch calls; SEQUENCES of 2-5 searches on one "
         "Ingestor (and one proxyapi handler set) whose replica behaviours change between searches (rolling restart at every "
         "position, flips, random), each search checked against its own behaviours; direct FetchDocsStream on 1-4 "
-        "stores with arbitrary request lists; Ingestor.Documents on 1-3 stores. non-trivial = a search script with at "
-        "least one non-ok replica / a fetch of >= 2 IDs / Documents of >= 2 IDs on >= 2 stores; distinct by script")
+        "stores with arbitrary request lists; Ingestor.Documents on 1-3 stores; EXTENSION: FetchDocsStream on 1-4 stores with all / "
+        "some / the first / rare Fetch calls failing and streams breaking after k documents (CFds: every call with the IDs it was "
+        "asked for), the decision alone for every Documents script (CFdsErr); seq.MergeQPRs called directly on 0-4 answers with IDs "
+        "around bucket borders (interval 0,1,2,5,1000), histogram keys shared or disjoint, zero counts, nil histograms, totals above "
+        "2^63, and bins receiving >= 8096 samples (CMerge); whole API responses of Search / ComplexSearch (CPage: documents with "
+        "payloads, int64 total, flag, code, histogram) with size 0, negative size/offset, offset beyond the result, small pages, "
+        "explain, with_total off, any pattern of failing fetch calls; histogram key-set scripts and >= 8096-sample bins through "
+        "Ingestor.Search. non-trivial = a search script with at "
+        "least one non-ok replica / a fetch of >= 2 IDs / Documents of >= 2 IDs on >= 2 stores / a CFds request of >= 2 IDs / a merge of >= 2 answers / a page script with a non-ok replica or a failing fetch call; "
+        "distinct by script")
 
 
 def harness_args(tier, seed, outdir):
